@@ -121,10 +121,20 @@ def plan(seed, subbatch):
         extras.append((op_rng.random(), {"op": act, "target": target}))
     start = world.pick_start(cfg, base_s, tf_s)
     pre, ops, fired, rows = planlib.stream_and_schedule(seed, subbatch, n, base_s, start, faults, burst, 0.0, extras)
+    hexcfg = {}
+    if tf and cfg.random() < 0.25:
+        # the Hexital itself on a timeframe; one member names that same timeframe explicitly, the others inherit it
+        hexcfg = {"timeframe": tf}
+        for m in members:
+            m["common"].pop("timeframe", None)
+            m["common"].pop("tf_as_enum", None)
+            m["common"].pop("timeframe_fill", None)
+        members[cfg.randint(0, len(members) - 1)]["common"]["timeframe"] = tf
+        relation += "+level_tf"
     fired["relation_" + relation] += 1
     fired["operator_ops"] += n_ops
     return {"format": 1, "property": ID, "seed": seed, "subbatch": subbatch,
-            "config": {"kind": "hexital", "members": members, "hexital": {}, "relation": relation, "base_s": base_s},
+            "config": {"kind": "hexital", "members": members, "hexital": hexcfg, "relation": relation, "base_s": base_s},
             "ops": [{"op": "new", "preload": pre}] + ops + [{"op": "check"}], "fired": dict(fired)}
 
 
@@ -175,6 +185,24 @@ def execute(trace, ctx=None):
                                          "members": names})
                 if any(v is not None for v in want):
                     compared_reading = True
+                # the same through the Hexital's own accessors (latest reading and the one before it)
+                sname = solos[j].slots[0].name
+                solo_hx = solos[j].subject
+                try:
+                    want_acc = (freeze(solo_hx.reading(sname)), freeze(solo_hx.prev_reading(sname)), solo_hx.has_reading(sname))
+                except Exception:  # noqa: BLE001
+                    want_acc = None
+                if want_acc is not None:
+                    for w in range(2):
+                        hx = worlds[w][0].subject
+                        nm = slot_of(w, j).name
+                        try:
+                            got_acc = (freeze(hx.reading(nm)), freeze(hx.prev_reading(nm)), hx.has_reading(nm))
+                        except Exception as exc:  # noqa: BLE001
+                            got_acc = ("raised", type(exc).__name__)
+                        if got_acc != want_acc:
+                            raise Violation("hexital-accessors-vs-solo-twin", f"{spec_label(members[j])}|{cfg['relation']}",
+                                            stage, {"observed": nm, "got": got_acc, "solo": want_acc, "members": names})
 
         phase = "shared"
         for i, op in enumerate(trace["ops"]):
